@@ -9,7 +9,9 @@ Three oracles, all on a scratch copy of the tree under test (VERIF_REPO):
   edits : generated marker edits (Hypothesis): a unique preprocessor line inserted at (file, line),
           or a unique token appended to an existing line, must (i) change the generator's output,
           (ii) appear in it exactly once, (iii) give back the committed header once removed again.
-Case: {"kind": "insert"|"append"|"base", "file": relative path, "line": int, "marker": hex}
+          "stale": the generator is re-run over the previously generated header (older than the edit), as a maintainer does;
+          "utf8": the marker carries UTF-8 text outside ASCII, which must arrive byte for byte.
+Case: {"kind": "insert"|"append"|"base", "file": relative path, "line": int, "marker": hex, "stale": 0|1, "utf8": 0..4}
 """
 import collections, os, re, shutil, subprocess, sys
 
@@ -40,11 +42,26 @@ def sources():
     return out
 
 
-def generate():
-    """runs the tree's own generator on the scratch copy, returns the bytes it wrote"""
+def generate(previous=None, edited=None):
+    """runs the tree's own generator on the scratch copy, returns the bytes it wrote.
+    previous=None: no header exists beforehand. previous=bytes: the workflow of a maintainer - the header generated earlier is in
+    place (time stamp T), then a source file was edited (time stamp T + 10 s), then the generator is run again; a generator that
+    decides for itself whether there is anything to do must still reflect the edit."""
     out = os.path.join(TREE, "qtlogger.h")
     if os.path.exists(out):
         os.unlink(out)
+    if previous is not None:
+        with open(out, "wb") as f:
+            f.write(previous)
+        import time as _t
+
+        t0 = _t.time() - 3600
+        for d, _, files in os.walk(TREE):
+            for fn in files:
+                os.utime(os.path.join(d, fn), (t0 - 100, t0 - 100))
+        os.utime(out, (t0, t0))
+        if edited:
+            os.utime(edited, (t0 + 10, t0 + 10))
     r = subprocess.run([sys.executable, os.path.join(TREE, "tools", "gen_qtlogger.h.py")], stdout=subprocess.PIPE, stderr=subprocess.STDOUT, cwd=TREE)
     if r.returncode != 0 or not os.path.exists(out):
         return None, r.stdout.decode(errors="replace")[-1500:]
@@ -133,6 +150,11 @@ def run(case):
         STATS.note_case(case, True)
         if gen != committed():
             return "committed qtlogger.h differs from the generator's output on the current sources: " + first_diff(committed(), gen)
+        gen2, err = generate(previous=committed())
+        if gen2 is None:
+            return "generator failed when the header already exists: " + err
+        if gen2 != committed():
+            return "re-running the generator over the existing header changes it: " + first_diff(committed(), gen2)
         return lines_oracle()
     rel = case["file"]
     p = os.path.join(TREE, rel)
@@ -142,10 +164,14 @@ def run(case):
         orig = f.read()
     lines = orig.split(b"\n")
     marker = ("VERIFMARK_%s" % case["marker"]).encode()
+    payload = b"1"
+    if case.get("utf8"):  # the sources are UTF-8 (Qt's source encoding): text outside ASCII must arrive in the header unchanged as well
+        payload = ('"%s"' % ["\u00b5s", "\u65e5\u672c", "caf\u00e9 \U0001F600", "\u00e4\u00f6\u00fc\u20ac"][int(case["utf8"]) % 4]).encode("utf-8")
+        marker = marker + b" " + payload
     try:
         if kind == "insert":
             ln = int(case["line"]) * (len(lines) + 1) // 10001  # position as a fraction of the file
-            mline = b"#define " + marker + b" 1"
+            mline = b"#define " + marker if case.get("utf8") else b"#define " + marker + b" 1"
             new = lines[:ln] + [mline] + lines[ln:]
         else:  # append a token to an existing non-blank line
             idx = [i for i, l in enumerate(lines) if l.strip() and not re.search(rb'#\s*include "', l) and b"SPDX" not in l and b"Copyright" not in l and b"#pragma once" not in l]
@@ -156,13 +182,15 @@ def run(case):
             new[ln] = lines[ln] + b" /*" + marker + b"*/"
         with open(p, "wb") as f:
             f.write(b"\n".join(new))
-        gen, err = generate()
+        gen, err = generate(previous=committed(), edited=p) if case.get("stale") else generate()
     finally:
         with open(p, "wb") as f:
             f.write(orig)
     STATS.note_case(dict(file=rel, line=ln, kind=kind), True)
     STATS.count("edits_in_" + rel.split("/")[2] if rel.count("/") >= 3 else "edits_in_top")
     STATS.cls("kind_" + kind)
+    STATS.cls("edit_with_text_outside_ascii", bool(case.get("utf8")))
+    STATS.cls("generator_rerun_over_existing_header", bool(case.get("stale")))
     if gen is None:
         return "generator failed on an edited tree: " + err
     base = committed()
@@ -202,7 +230,7 @@ def main():
         sweep = os.environ.get("VERIF_TIER") == "thorough" and os.environ.get("VERIF_SHARD", "0") == "0"
         if sweep:  # every file once: exhaustive over files
             for i, rel in enumerate(files):
-                c = dict(kind="insert", file=rel, line=5000, marker="%08x" % (0xA0000000 + i))
+                c = dict(kind="insert", file=rel, line=5000, marker="%08x" % (0xA0000000 + i), stale=1, utf8=i % 5)
                 why = run(c)
                 if why:
                     from hypcommon import fail_case
@@ -218,6 +246,8 @@ def main():
                 file=st.sampled_from(files),
                 line=st.integers(0, 10000),
                 marker=st.integers(0, 2**32 - 1).map(lambda x: "%08x" % x),
+                utf8=st.sampled_from([0, 0, 0, 1, 2, 3, 4]),
+                stale=st.sampled_from([0, 1, 1]),
             )
         )
         return hyp_main("C20", strat, run, 40)
